@@ -41,11 +41,11 @@ func runC02(c *eng.Ctx, thorough bool) {
 	// ---------------- C02.1 handleRequest
 	if f := c.Fn("vault.(*Core).handleRequest"); f != nil {
 		c.Clause("R2", "C02.1")
-		dispatch := instrsOf(eng.Calls(f, `vault\.\(\*Core\)\.doRoutingIfApproved$`))
+		dispatch := c02MaySinks(f, `vault\.\(\*Core\)\.doRoutingIfApproved$`)
 		c.Floor(f, "dispatch call", len(dispatch), 1)
 		c.Cut(f, "backend dispatch", dispatch, eng.G(f, `^vault\.\(\*Core\)\.CheckToken\(\)#4 == nil$`, true), nil)
-		c.Cut(f, "backend dispatch", dispatch, eng.GCallOK(f, `vault\.\(\*AuditBroker\)\.LogRequest$`), nil)
-		use := eng.GCallOK(f, `vault\.\(\*TokenStore\)\.UseToken$`)
+		c.Cut(f, "backend dispatch", dispatch, nfGCallOK(f, `vault\.\(\*AuditBroker\)\.LogRequest$`), nil)
+		use := nfGCallOK(f, `vault\.\(\*TokenStore\)\.UseToken$`)
 		c.Cut(f, "backend dispatch", dispatch, eng.Or(eng.Guard{Desc: use.Desc, Edges: use.Edges}, eng.G(f, `^te == nil$`, true)), nil)
 		c.Cut(f, "backend dispatch", dispatch, eng.G(f, `^logical\.ValidateExternalOperation\(\) == nil$`, true), nil)
 		// CheckToken is called with the constant unauth=false
@@ -86,7 +86,7 @@ func runC02(c *eng.Ctx, thorough bool) {
 		c.Clause("R2", "C02.1")
 		succ := eng.SuccessReturns(f, 4)
 		c.Floor(f, "nil-error returns", len(succ), 1)
-		c.Cut(f, "return with nil error (unauth=false)", succ, eng.GCallOK(f, `vault\.\(\*Core\)\.fetchACLTokenEntryAndEntity$`), unauthFalse)
+		c.Cut(f, "return with nil error (unauth=false)", succ, nfGCallOK(f, `vault\.\(\*Core\)\.fetchACLTokenEntryAndEntity$`), unauthFalse)
 		c.Cut(f, "return with nil error (unauth=false)", succ, eng.G(f, `^vault\.\(\*Core\)\.performPolicyChecks\(\)\.Allowed$`, true), unauthFalse)
 		c.Cut(f, "return with nil error (unauth=true)", succ, eng.G(f, `^vault\.\(\*Core\)\.performPolicyChecks\(\)\.Allowed$`, true), unauthTrue)
 		// entity disabled / missing entity refusals
@@ -127,7 +127,7 @@ func runC02(c *eng.Ctx, thorough bool) {
 		c.Floor(f, "nil-error returns", len(succ), 1)
 		c.Cut(f, "return with nil error", succ, eng.G(f, `^req\.ClientToken == ""$`, false), nil)
 		c.Cut(f, "return with nil error", succ, eng.G(f, `^φte\{.*\} == nil$`, false), nil)
-		lk := eng.GCallOK(f, `vault\.\(\*TokenStore\)\.Lookup$`)
+		lk := nfGCallOK(f, `vault\.\(\*TokenStore\)\.Lookup$`)
 		c.Cut(f, "return with nil error", succ, eng.Or(eng.Guard{Desc: lk.Desc, Edges: lk.Edges}, eng.G(f, `^logical\.\(\*Request\)\.TokenEntry\(\) == nil$`, false)), nil)
 		cidrInline := len(eng.Calls(f, `SockAddr>\.Contains$`)) > 0
 		if cidrInline {
@@ -138,8 +138,8 @@ func runC02(c *eng.Ctx, thorough bool) {
 		} else {
 			c02BoundCIDRHelper(c, f, succ)
 		}
-		c.Cut(f, "return with nil error", succ, eng.GCallOK(f, `policy\.\(\*Store\)\.ACL$`), nil)
-		c.Cut(f, "return with nil error", succ, eng.GCallOK(f, `vault\.\(\*Core\)\.fetchEntityAndDerivedPolicies$`), nil)
+		c.Cut(f, "return with nil error", succ, nfGCallOK(f, `policy\.\(\*Store\)\.ACL$`), nil)
+		c.Cut(f, "return with nil error", succ, nfGCallOK(f, `vault\.\(\*Core\)\.fetchEntityAndDerivedPolicies$`), nil)
 		// valid=true only when a bound CIDR contains the remote address
 		if cidrInline {
 			trueEdges := eng.PhiEdgeSinks(f, "valid", func(v ssa.Value) bool { return eng.Expr(v) == "true" })
@@ -176,18 +176,18 @@ func runC02(c *eng.Ctx, thorough bool) {
 	// ---------------- C02.3 login requests
 	if f := c.Fn("vault.(*Core).handleCancelableRequest"); f != nil {
 		c.Clause("R2", "C02.3")
-		login := instrsOf(eng.Calls(f, `vault\.\(\*Core\)\.handleLoginRequest$`))
+		login := c02MaySinks(f, `vault\.\(\*Core\)\.handleLoginRequest$`)
 		c.Floor(f, "handleLoginRequest call", len(login), 1)
 		c.Cut(f, "handleLoginRequest", login, eng.G(f, `^vault\.\(\*Core\)\.isLoginRequest\(\)$`, true), nil)
 		// C02.6: trailing-slash writes and internal operations never reach either handler
 		c.Clause("R2", "C02.6")
-		handlers := append(instrsOf(eng.Calls(f, `vault\.\(\*Core\)\.handleRequest$`)), login...)
+		handlers := append(c02MaySinks(f, `vault\.\(\*Core\)\.handleRequest$`), login...)
 		c.Floor(f, "handler calls", len(handlers), 2)
 		c.Cut(f, "handleRequest/handleLoginRequest", handlers, eng.G(f, `^logical\.ValidateExternalOperation\(\) == nil$`, true), nil)
 		c.Cut(f, "handleRequest/handleLoginRequest", handlers, eng.Or(
 			eng.G(f, `^strings\.HasSuffix\(\)$`, false),
 			eng.G(f, `^req\.Operation == "patch"$`, false)), nil)
-		c.Cut(f, "handleRequest/handleLoginRequest", handlers, eng.GCallOK(f, `vault\.\(\*Core\)\.PopulateTokenEntry$`), nil)
+		c.Cut(f, "handleRequest/handleLoginRequest", handlers, nfGCallOK(f, `vault\.\(\*Core\)\.PopulateTokenEntry$`), nil)
 		// standby forwards use-limited tokens
 		c.Cut(f, "handleRequest/handleLoginRequest", handlers, eng.Or(
 			eng.G(f, `^\(\*sync/atomic\.Bool\)\.Load\(\)$`, false),
@@ -201,10 +201,10 @@ func runC02(c *eng.Ctx, thorough bool) {
 	}
 	if f := c.Fn("vault.(*Core).handleLoginRequest"); f != nil {
 		c.Clause("R2", "C02.3")
-		dispatch := instrsOf(eng.Calls(f, `vault\.\(\*Core\)\.doRoutingIfApproved$`))
+		dispatch := c02MaySinks(f, `vault\.\(\*Core\)\.doRoutingIfApproved$`)
 		c.Floor(f, "dispatch call", len(dispatch), 1)
 		c.Cut(f, "login dispatch", dispatch, eng.G(f, `^vault\.\(\*Core\)\.CheckToken\(\)#4 == nil$`, true), nil)
-		c.Cut(f, "login dispatch", dispatch, eng.GCallOK(f, `vault\.\(\*AuditBroker\)\.LogRequest$`), nil)
+		c.Cut(f, "login dispatch", dispatch, nfGCallOK(f, `vault\.\(\*AuditBroker\)\.LogRequest$`), nil)
 		c.Cut(f, "login dispatch", dispatch, eng.G(f, `^strings\.HasPrefix\(\)$`, false), nil)
 		c.Cut(f, "login dispatch", dispatch, eng.G(f, `^logical\.ValidateExternalOperation\(\) == nil$`, true), nil)
 		c.Cut(f, "login dispatch", dispatch, eng.Or(eng.G(f, `^vault\.\(\*Core\)\.isUserLocked\(\)#1$`, false), eng.G(f, `^vault\.\(\*Core\)\.isUserLockoutDisabled\(\)#0$`, true)), nil)
@@ -219,9 +219,9 @@ func runC02(c *eng.Ctx, thorough bool) {
 		}
 		// token creation only for auth/ paths with a login operation
 		c.Clause("R2", "C02.3")
-		reg := instrsOf(eng.Calls(f, `vault\.\(\*Core\)\.LoginCreateToken$`))
+		reg := c02MaySinks(f, `vault\.\(\*Core\)\.LoginCreateToken$`)
 		if len(reg) == 0 {
-			reg = instrsOf(eng.Calls(f, `vault\.\(\*Core\)\.RegisterAuth$`))
+			reg = c02MaySinks(f, `vault\.\(\*Core\)\.RegisterAuth$`)
 		}
 		if c.Floor(f, "token creation call (LoginCreateToken)", len(reg), 1) {
 			c.Cut(f, "login token creation", reg, eng.G(f, `^logical\.ValidateLoginOperation\(\) == nil$`, true), nil)
@@ -358,7 +358,7 @@ func runC02(c *eng.Ctx, thorough bool) {
 	if f := c.Fn("http.handleLogicalRecovery"); f != nil {
 		c.Clause("R2", "C02.4")
 		for _, cl := range eng.Closures(f) {
-			hr := instrsOf(eng.Calls(cl, `\.HandleRequest$`))
+			hr := c02MaySinks(cl, `\.HandleRequest$`)
 			if len(hr) == 0 {
 				continue
 			}
@@ -369,8 +369,8 @@ func runC02(c *eng.Ctx, thorough bool) {
 	// ---------------- C02.6 path normalisation and seal guards
 	if f := c.Fn("vault.(*Core).switchedLockHandleRequest"); f != nil {
 		c.Clause("R2", "C02.6")
-		h := instrsOf(eng.Calls(f, `vault\.\(\*Core\)\.handleCancelableRequest$`))
-		h = append(h, instrsOf(eng.Calls(f, `vault\.\(\*Core\)\.handleInlineAuth$`))...)
+		h := c02MaySinks(f, `vault\.\(\*Core\)\.handleCancelableRequest$`)
+		h = append(h, c02MaySinks(f, `vault\.\(\*Core\)\.handleInlineAuth$`)...)
 		c.Floor(f, "handleCancelableRequest/handleInlineAuth calls", len(h), 2)
 		c.Cut(f, "request handling", h, eng.Or(eng.G(f, `^logical\.IsRelativePath\(\)$`, false), eng.G(f, `^c\.unsafeRelativePaths$`, true)), nil)
 		c.Cut(f, "request handling", h, eng.G(f, `^vault\.\(\*Core\)\.Sealed\(\)$`, false), nil)
@@ -443,7 +443,7 @@ func tokenLiveness(c *eng.Ctx, clause string) {
 		c.Cut(f, "exit returning a token entry", all, eng.Or(c04MarkerExcluded(c, f), eng.G(f, `^tainted$`, true)), nil)
 		c.Cut(f, "ret = entry (expiring token)", retEdges, eng.Or(eng.G(f, `^time\.\(Time\)\.Before\(\)$`, false), eng.G(f, `^tainted$`, true)), nil)
 		c.Cut(f, "ret = entry (expiring token)", retEdges, eng.G(f, `FetchLeaseTimesByToken\(\)#0 == nil$`, false), nil)
-		c.Cut(f, "ret = entry (expiring token)", retEdges, eng.GCallOK(f, `vault\.\(\*ExpirationManager\)\.FetchLeaseTimesByToken$`), nil)
+		c.Cut(f, "ret = entry (expiring token)", retEdges, nfGCallOK(f, `vault\.\(\*ExpirationManager\)\.FetchLeaseTimesByToken$`), nil)
 		// the non-expiring fast path requires the root policy and TTL == 0
 		c.Cut(f, "fast-path return of the entry", sinks, eng.G(f, `\.TTL == 0$`, true), nil)
 		c.Cut(f, "fast-path return of the entry", sinks, eng.G(f, `\.Policies\[0\] == "root"$`, true), nil)
@@ -452,7 +452,7 @@ func tokenLiveness(c *eng.Ctx, clause string) {
 		noLease := eng.CondEdges(f, `FetchLeaseTimesByToken\(\)#0 == nil$`, true)
 		c.NilResultOnEdges(f, "token has no lease", noLease, 0, "token entry")
 		succ := eng.SuccessReturns(f, 1)
-		revoke := instrsOf(eng.Calls(f, `vault\.\(\*ExpirationManager\)\.Revoke$`))
+		revoke := nfAts(nfPlain(nfSites(f, `vault\.\(\*ExpirationManager\)\.Revoke$`)))
 		if len(noLease) > 0 {
 			if h := eng.Reach(eng.Query{Fn: f, StartEdges: noLease, Barriers: revoke, Target: eng.IsTarget(succ)}); h != nil {
 				c.Violation(f, "on{token has no lease} revoke before nil-error return", h.Instr.Pos(), "a nil-error return is reachable for a lease-less expiring token without calling expiration.Revoke", h.Witness)
@@ -472,7 +472,7 @@ func tokenLiveness(c *eng.Ctx, clause string) {
 		sinks := eng.NonNilResultReturns(f, 0)
 		c.Floor(f, "entry-returning exits", len(sinks), 1)
 		c.Cut(f, "return of a batch token entry", sinks, eng.G(f, `^time\.\(Time\)\.After\(\)$`, false), nil)
-		c.Cut(f, "return of a batch token entry", sinks, eng.GCallOK(f, `vault\.\(\*TokenStore\)\.lookupBatchTokenInternal$`), nil)
+		c.Cut(f, "return of a batch token entry", sinks, nfGCallOK(f, `vault\.\(\*TokenStore\)\.lookupBatchTokenInternal$`), nil)
 		c.Cut(f, "return of a batch token entry", sinks, eng.Or(
 			eng.G(f, `lookupBatchTokenInternal\(\)#0\.Parent == ""$`, true),
 			eng.G(f, `^vault\.\(\*TokenStore\)\.Lookup\(\)#0 == nil$`, false)), nil)
@@ -511,7 +511,7 @@ func c02BoundCIDRHelper(c *eng.Ctx, f *ssa.Function, succ []ssa.Instruction) {
 			continue
 		}
 		pat := "^" + regexp.QuoteMeta(eng.FuncName(h)) + "$"
-		c.Cut(f, "return with nil error", succ, eng.GCallOK(f, pat), nil)
+		c.Cut(f, "return with nil error", succ, nfGCallOK(f, pat), nil)
 		hs := eng.SuccessReturns(h, res.Len()-1)
 		if c.Floor(h, "nil-error returns of the bound-CIDR helper", len(hs), 1) {
 			c.Cut(h, "bound-CIDR check passed (nil error)", hs, eng.Or(
@@ -585,14 +585,15 @@ func c02PolicyChecks(c *eng.Ctx) {
 	type sink struct {
 		in       ssa.Instruction
 		what     string
-		computed bool // the value arriving here is not the constant true
+		computed bool      // the value arriving here is not the constant true
+		val      ssa.Value // that value (nil for the constant)
 	}
 	var sinks []sink
 	for _, st := range stores {
 		switch v := st.Val.(type) {
 		case *ssa.Const:
 			if eng.Expr(v) == "true" {
-				sinks = append(sinks, sink{st, "ret.Allowed = true @" + eng.InstrStr(st), false})
+				sinks = append(sinks, sink{st, "ret.Allowed = true @" + eng.InstrStr(st), false, nil})
 			}
 		case *ssa.Phi:
 			for i, e := range v.Edges {
@@ -601,10 +602,10 @@ func c02PolicyChecks(c *eng.Ctx) {
 				}
 				_, isConst := e.(*ssa.Const)
 				pb := v.Block().Preds[i]
-				sinks = append(sinks, sink{pb.Instrs[len(pb.Instrs)-1], "ret.Allowed = " + eng.Expr(e) + " (arm of a computed verdict)", !isConst})
+				sinks = append(sinks, sink{pb.Instrs[len(pb.Instrs)-1], "ret.Allowed = " + eng.Expr(e) + " (arm of a computed verdict)", !isConst, e})
 			}
 		default:
-			sinks = append(sinks, sink{st, "ret.Allowed = " + eng.Expr(v), true})
+			sinks = append(sinks, sink{st, "ret.Allowed = " + eng.Expr(v), true, v})
 		}
 	}
 	var all []ssa.Instruction
@@ -627,11 +628,48 @@ func c02PolicyChecks(c *eng.Ctx) {
 		eng.G(f, `^opts\.RootPrivsRequired$`, false),
 		eng.G(f, `^req\.Operation == "help"$`, true))
 	if computed {
-		// the sudo part of the verdict is a boolean VALUE (x && !missing): path rules do not evaluate data
-		if h := eng.Reach(eng.Query{Fn: f, Blocked: sudo.Edges, Target: eng.IsTarget(all), Assume: asm}); h != nil {
-			c.Undecided(f, "sink{ret.Allowed = true (acl != nil, !Unauth)} guard{"+sudo.Desc+"}", h.Instr.Pos(), "the verdict is stored as a computed boolean; whether it can be true without sudo on a root-protected path depends on the value of that expression, which the path rules do not evaluate (review by hand)")
-		} else {
-			c.OK(f, "sink{ret.Allowed = true (acl != nil, !Unauth)} guard{"+sudo.Desc+"}", all[0].Pos(), "every point at which Allowed may become true lies behind the sudo condition")
+		// the sudo part of the verdict is (partly) a boolean VALUE (x && !missing): a point at which a computed
+		// value arrives is fine when it lies behind the sudo condition on every path, or when the value itself can
+		// be true only under that condition (c02TrueOnlyUnder evaluates phi / ! / comparisons as data)
+		site := "sink{ret.Allowed = true (acl != nil, !Unauth)} guard{" + sudo.Desc + "}"
+		data := []c02DataGuard{
+			{fields: []string{"policy.ACLResults.IsRoot"}, val: true},
+			{fields: []string{"policy.ACLResults.RootPrivs", "policy.AuthResults.RootPrivs"}, val: true},
+			{pat: regexp.MustCompile(`^opts\.RootPrivsRequired$`), val: false},
+			{pat: regexp.MustCompile(`^req\.Operation == "help"$`), val: true},
+		}
+		for i := range data {
+			for _, n := range data[i].fields {
+				if fv := c.P.Field(n); fv != nil {
+					data[i].fvs = append(data[i].fvs, fv)
+				}
+			}
+		}
+		var open *eng.Hit
+		undecided := false
+		for _, s := range sinks {
+			h := eng.Reach(eng.Query{Fn: f, Blocked: sudo.Edges, Target: eng.IsTarget([]ssa.Instruction{s.in}), Assume: asm})
+			if h == nil {
+				continue
+			}
+			if s.computed && s.val != nil {
+				switch c02TrueOnlyUnder(f, s.val, true, sudo.Edges, data, asm, 0) {
+				case 1:
+					continue
+				case 0:
+					undecided = true
+					continue
+				}
+			}
+			open = h
+		}
+		switch {
+		case open != nil:
+			c.Violation(f, site, open.Instr.Pos(), "sink reachable from entry without crossing the guard", open.Witness)
+		case undecided:
+			c.Undecided(f, site, all[0].Pos(), "the verdict is stored as a computed boolean whose shape the data evaluation does not cover; whether it can be true without sudo on a root-protected path must be reviewed by hand")
+		default:
+			c.OK(f, site, all[0].Pos(), "every point at which Allowed may become true lies behind the sudo condition, or carries a value that can be true only under it")
 		}
 	} else {
 		c.Cut(f, "ret.Allowed = true (acl != nil, !Unauth)", all, sudo, asm)
@@ -643,4 +681,91 @@ func c02PolicyChecks(c *eng.Ctx) {
 		c.Prov(f, "request checked", ao, ao.Common().Args[2], `^param:req$`)
 	}
 	c.Floor(f, "AllowOperation call", len(eng.Calls(f, `policy\.\(\*ACL\)\.AllowOperation$`)), 1)
+}
+
+// c02DataGuard: a condition of a guard as DATA: a boolean value that reads one
+// of the fields (by identity) or whose normal form matches pat, having value val.
+type c02DataGuard struct {
+	fields []string
+	fvs    []*types.Var
+	pat    *regexp.Regexp
+	val    bool
+}
+
+// c02TrueOnlyUnder: can boolean value v have the value want only when the guard
+// holds (a guard edge was crossed on the way to where v is chosen, or v's own
+// value implies a data guard)? 1 = yes, -1 = no (it can have that value without
+// the guard), 0 = shape not covered. Evaluates constants, !, phi (&& / || and
+// if/else-assigned locals) and leaves (field reads, comparisons).
+func c02TrueOnlyUnder(f *ssa.Function, v ssa.Value, want bool, guard []eng.Edge, data []c02DataGuard, asm map[string]bool, depth int) int {
+	if depth > 8 || v == nil {
+		return 0
+	}
+	switch x := v.(type) {
+	case *ssa.Const:
+		if s := eng.Expr(x); s == "true" || s == "false" {
+			if (s == "true") == want {
+				return -1
+			}
+			return 1 // can never have that value
+		}
+		return 0
+	case *ssa.UnOp:
+		if x.Op == token.NOT {
+			return c02TrueOnlyUnder(f, x.X, !want, guard, data, asm, depth+1)
+		}
+	case *ssa.Phi:
+		isGuard := map[eng.Edge]bool{}
+		for _, e := range guard {
+			isGuard[e] = true
+		}
+		res := 1
+		for i, e := range x.Edges {
+			pb := x.Block().Preds[i]
+			crossed := false
+			for si, sb := range pb.Succs {
+				if sb == x.Block() && isGuard[eng.Edge{From: pb, Succ: si}] {
+					crossed = true
+				}
+			}
+			if crossed || eng.Reach(eng.Query{Fn: f, Blocked: guard, Assume: asm, Target: eng.IsTarget([]ssa.Instruction{pb.Instrs[len(pb.Instrs)-1]})}) == nil {
+				continue
+			}
+			switch c02TrueOnlyUnder(f, e, want, guard, data, asm, depth+1) {
+			case -1:
+				return -1
+			case 0:
+				res = 0
+			}
+		}
+		return res
+	}
+	// a leaf: a field read or a comparison
+	n := eng.Normalize(v)
+	baseVal := n.Pol
+	if !want {
+		baseVal = !n.Pol
+	}
+	leaf := n.Val
+	if leaf == nil {
+		leaf = v
+	}
+	for _, d := range data {
+		if d.val != baseVal {
+			continue
+		}
+		if d.pat != nil && n.Matches(d.pat) {
+			return 1
+		}
+		for _, fv := range d.fvs {
+			if _, ok := nfFieldRead(leaf, fv); ok {
+				return 1
+			}
+		}
+	}
+	switch v.(type) {
+	case *ssa.BinOp, *ssa.UnOp, *ssa.Field:
+		return -1 // a plain condition that is not one of the guard's
+	}
+	return 0
 }
